@@ -2904,3 +2904,164 @@ Section Scripted.
       rewrite Hz in H. injection H as <- _. reflexivity.
   Qed.
 End Scripted.
+
+(* ================================================================== the quiet dispatch poll, analysed *)
+Section QuietRun.
+  Notation cstate := sstate.
+  Implicit Types s : cstate.
+
+  Lemma pcast_not_some {A B} (r : pres A) u : @pcast A B r <> PSome u.
+  Proof. destruct r; discriminate. Qed.
+
+  Lemma noisy_pwrq s u s1 : poll_write_request stp s = (PSome u, s1) -> ~ qlog (plog s1).
+  Proof.
+    intro H. apply poll_write_request_inv in H. remember (PSome u) as rr eqn:Er.
+    destruct H as [_|r s1 _ H1 Hr|r s1 s2 _ H1 H2 Hr|s1 q s2 w s3 L H1 H2 H3].
+    - discriminate.
+    - exfalso. eapply pcast_not_some; exact Er.
+    - exfalso. eapply pcast_not_some; exact Er.
+    - pose proof (noisy_do_send _ _ _ _ _ H3) as N3. destruct w; [exact N3|].
+      rewrite (if_plog _ _ (TFrame_I _ _ (TFrame_complete_request s3 (q_id q) OSendErr))). exact N3.
+  Qed.
+  Lemma noisy_pwc s u s1 : poll_write_cancel stp s = (PSome u, s1) -> ~ qlog (plog s1).
+  Proof.
+    intro H. apply poll_write_cancel_inv in H. remember (PSome u) as rr eqn:Er.
+    destruct H as [r s1 H1 Hr|r s1 s2 H1 H2 Hr|s1 id e s2 w s3 H1 H2 H3].
+    - exfalso. eapply pcast_not_some; exact Er.
+    - exfalso. eapply pcast_not_some; exact Er.
+    - eapply noisy_do_send, H3.
+  Qed.
+
+  Lemma pump_write_some_quiet s u s2 :
+    pump_write stp s = (PSome u, s2) -> K s -> qlog (plog s2) ->
+    (length (inflight s2) < length (inflight s))%nat.
+  Proof.
+    intros H Kk Q. apply pump_write_inv in H. remember (PSome u) as rr eqn:Er.
+    destruct H as [a s1 H1|u' s1 H1|r1 s1 a s2 H1 I1 H2|r1 s1 u' s2 H1 I1 H2
+                  |r1 s1 r2 s2 id s3 H1 I1 H2 I2 H3|s1 s2 s3 x s4 H1 H2 H3 H4
+                  |r1 s1 r2 s2 s3 x s4 H1 I1 H2 I2 I12 H3 H4].
+    - discriminate.
+    - exfalso. eapply noisy_pwrq; eassumption.
+    - discriminate.
+    - exfalso. eapply noisy_pwc; eassumption.
+    - pose proof (ML_poll_write_request _ _ _ _ H1) as [E1 L1].
+      pose proof (ML_poll_write_cancel _ _ _ _ H2) as [E2 L2].
+      pose proof (TFrame_poll_expired s2) as F3. rewrite H3 in F3. cbn [snd] in F3.
+      assert (Q2 : qlog (plog s2)) by (rewrite <- (if_plog _ _ (TFrame_I _ _ F3)); exact Q).
+      specialize (L2 Q2). specialize (L1 (qlog_Ext _ _ E2 Q2)).
+      pose proof (K_poll_write_cancel _ _ _ _ H2 (K_poll_write_request _ _ _ _ H1 Kk)) as K2.
+      pose proof (poll_expired_some _ _ _ H3 K2). lia.
+    - destruct x; discriminate.
+    - destruct x; discriminate.
+  Qed.
+
+  Definition idle_facts s s' : Prop :=
+    Back s s' /\ inflight s' = inflight s /\ max_if s' = max_if s.
+
+  Lemma pwrq_idle s r s' :
+    poll_write_request stp s = (r, s') -> idle r -> Wp (tr s') ->
+    idle_facts s s' /\ ((max_if s <= length (inflight s))%nat \/ queue s' = []).
+  Proof.
+    intros H Hi HW. apply poll_write_request_inv in H.
+    destruct H as [L0|r s1 _ H1 Hr|r s1 s2 _ H1 H2 Hr|s1 q s2 w s3 L H1 H2 H3].
+    - split; [split; [apply Back_refl|split; reflexivity]|]. left. apply Nat.leb_le. exact L0.
+    - exfalso. assert (N : forall a, r <> PErr a).
+      { intros a ->. destruct Hi as [X|X]; discriminate. }
+      pose proof (ew_Wp _ _ _ H1 (ew_back _ _ _ H1 N HW)) as ->. discriminate.
+    - assert (N : forall a, PSome tt <> @PErr unit a) by discriminate.
+      pose proof (ew_back _ _ _ H1 N) as B1. pose proof (XFrame_ensure_writeable _ _ _ _ H1) as F1.
+      pose proof (IFrame_next_request_loop (S (length (queue s1))) s1) as F2.
+      pose proof (QFrame_next_request_loop (S (length (queue s1))) s1) as F3.
+      rewrite H2 in F2, F3. cbn [snd] in F2, F3.
+      split; [split; [eapply Back_trans; [exact B1|apply Back_I, F2]|split]|right].
+      + rewrite (qf_inflight _ _ F3). apply F1.
+      + rewrite (pf_maxif _ _ (if_p _ _ F2)). apply (xf_p _ _ F1).
+      + destruct r as [x| | |a]; try discriminate.
+        * eapply next_request_loop_none, H2.
+        * eapply next_request_loop_pend; [exact H2|lia].
+        * destruct Hi as [X|X]; discriminate.
+    - exfalso. destruct Hi as [X|X]; discriminate.
+  Qed.
+
+  Lemma pwc_idle s r s' :
+    poll_write_cancel stp s = (r, s') -> idle r -> Wp (tr s') ->
+    idle_facts s s' /\ queue s' = queue s.
+  Proof.
+    intros H Hi HW. apply poll_write_cancel_inv in H.
+    destruct H as [r s1 H1 Hr|r s1 s2 H1 H2 Hr|s1 id e s2 w s3 H1 H2 H3].
+    - exfalso. assert (N : forall a, r <> PErr a).
+      { intros a ->. destruct Hi as [X|X]; discriminate. }
+      pose proof (ew_Wp _ _ _ H1 (ew_back _ _ _ H1 N HW)) as ->. discriminate.
+    - assert (N : forall a, PSome tt <> @PErr unit a) by discriminate.
+      pose proof (ew_back _ _ _ H1 N) as B1. pose proof (XFrame_ensure_writeable _ _ _ _ H1) as F1.
+      pose proof (CFrame_next_cancel_loop (S (length (cancels s1))) s1) as F2.
+      rewrite H2 in F2. cbn [snd] in F2.
+      destruct (next_cancel_loop_inflight _ _ _ _ H2) as [_ F3]. destruct (F3 Hr) as [F4 _].
+      split; [split; [eapply Back_trans; [exact B1|apply Back_I, F2]|split]|].
+      + rewrite F4. apply F1.
+      + rewrite (pf_maxif _ _ (if_p _ _ (cf_i _ _ F2))). apply (xf_p _ _ F1).
+      + rewrite (cf_queue _ _ F2). apply F1.
+    - exfalso. destruct w; destruct Hi as [X|X]; discriminate.
+  Qed.
+
+  Definition quiet_concl s : Prop :=
+    (forall id w, In (id, w) (timers s) -> now s < w) /\
+    (queue s <> [] -> (max_if s <= length (inflight s))%nat).
+
+  Lemma quiet_pump_write s wr s2 :
+    pump_write stp s = (wr, s2) -> idle wr -> Wp (tr s2) -> quiet_concl s2 /\ Back s s2.
+  Proof.
+    intros H Hi HW. apply pump_write_inv in H.
+    assert (Hmain : forall r1 s1 r2 s2' s3 s4,
+      poll_write_request stp s = (r1, s1) -> idle r1 -> poll_write_cancel stp s1 = (r2, s2') -> idle r2 ->
+      poll_expired s2' = (None, s3) -> XFrame s3 s4 -> Back s3 s4 -> Wp (tr s4) ->
+      quiet_concl s4 /\ Back s s4).
+    { intros r1 s1 r2 s2' s3 s4 H1 I1 H2 I2 H3 F4 B4 HW4.
+      destruct (poll_expired_none _ _ H3) as [-> Hfut].
+      assert (W2 : Wp (tr s2')) by (apply B4, HW4).
+      destruct (pwc_idle _ _ _ H2 I2 W2) as [(B2 & In2 & M2) Q2].
+      destruct (pwrq_idle _ _ _ H1 I1 (B2 W2)) as [(B1 & In1 & M1) D1].
+      split; [|eapply Back_trans; [exact B1|]; eapply Back_trans; eassumption].
+      split.
+      - intros id w Hin. rewrite (pf_now _ _ (xf_p _ _ F4)). apply (Hfut id).
+        rewrite <- (xf_timers _ _ F4). exact Hin.
+      - rewrite (xf_queue _ _ F4), (xf_inflight _ _ F4), (pf_maxif _ _ (xf_p _ _ F4)).
+        rewrite Q2, In2, M2, In1, M1. destruct D1 as [D1|D1]; [intros _; exact D1|contradiction]. }
+    destruct H as [a s1 H1|u' s1 H1|r1 s1 a s2 H1 I1 H2|r1 s1 u' s2 H1 I1 H2
+                  |r1 s1 r2 s2 id s3 H1 I1 H2 I2 H3|s1 s2 s3 x s4 H1 H2 H3 H4
+                  |r1 s1 r2 s2 s3 x s4 H1 I1 H2 I2 I12 H3 H4];
+      try (exfalso; destruct Hi as [X|X]; discriminate).
+    - eapply (Hmain PNone s1 PNone s2 s3 s4); try eassumption; try (left; reflexivity).
+      + eapply XFrame_do_close, H4.
+      + eapply Back_do_close; [exact H4|]. intros ->. destruct Hi as [X|X]; discriminate.
+    - eapply (Hmain r1 s1 r2 s2 s3 s4); try eassumption.
+      + eapply XFrame_do_flush, H4.
+      + eapply Back_do_flush; [exact H4|]. intros ->. destruct Hi as [X|X]; discriminate.
+  Qed.
+
+  Lemma quiet_run f : forall s s',
+    run_loop stp f s = (RunPending, s') -> qlog (plog s') -> K s ->
+    length (inflight s') = length (inflight s) -> Wp (tr s') -> quiet_concl s'.
+  Proof.
+    induction f as [|f IH]; intros s s' H Q Kk L HW; [cbn in H; discriminate|].
+    apply run_loop_inv in H. remember RunPending as rr eqn:Er.
+    destruct H as [a s1 H1|rd s1 a s2 H1 N1 H2|s1 wr s2 H1 H2 N2|rd s1 s2 H1 D1 H2 L2
+                  |s1 wr s2 H1 H2 D2|rd s1 wr s2 r s3 H1 H2 D' H3]; try discriminate.
+    - (* the last iteration *)
+      assert (Hi : idle wr) by (destruct D2 as [-> |[-> _]]; [right|left]; reflexivity).
+      apply (quiet_pump_write _ _ _ H2 Hi HW).
+    - (* an iteration that made progress without sending or reading: impossible *)
+      subst r. pose proof (ML_pump_read _ _ _ _ H1) as [E1 L1].
+      pose proof (ML_pump_write _ _ _ _ H2) as [E2 L2].
+      pose proof (ML_run_loop _ _ _ _ _ H3) as [E3 L3].
+      assert (Q2 : qlog (plog s2)) by (eapply qlog_Ext; eassumption).
+      assert (Q1 : qlog (plog s1)) by (eapply qlog_Ext; eassumption).
+      specialize (L3 Q). specialize (L2 Q2). specialize (L1 Q1).
+      pose proof (K_pump_read _ _ _ _ H1 Kk) as K1. pose proof (K_pump_write _ _ _ _ H2 K1) as K2.
+      destruct D' as [[-> _]|[-> ->]].
+      + exfalso. apply pump_read_inv in H1. destruct H1 as (x & s0 & Hn & Hr & Hs).
+        destruct x; try discriminate. subst s1.
+        apply (noisy_do_next _ _ _ _ Hn). rewrite <- (if_plog _ _ (TFrame_I _ _ (TFrame_complete s0 x))). exact Q1.
+      + pose proof (pump_write_some_quiet _ _ _ H2 K1 Q2). lia.
+  Qed.
+End QuietRun.
